@@ -46,7 +46,7 @@ def c17_violation(r):
     v = r["verdict"]
     # collective-count-mismatch / truncation: the ranks disagree about the size of a buffer that crosses MPI - in real MPI the
     # receiver then reads or writes beyond what was transferred (undefined behaviour at the MPI level)
-    return (v.startswith("asan") or v.startswith("valgrind") or v.startswith("crash:signal") or bool(r.get("ubsan")) or v == "ubsan"
+    return (v.startswith("asan") or v.startswith("valgrind") or v.startswith("tsan") or v.startswith("helgrind") or v.startswith("crash:signal") or bool(r.get("ubsan")) or v == "ubsan"
             or v in ("collective-count-mismatch", "truncation"))
 
 # small dispatcher configurations whose interleaving space is sampled densely; the evidence reports how the number of
@@ -76,16 +76,21 @@ CHECKS = {
                       # the same real-thread teams, uninstrumented, under valgrind's helgrind: binary-level, so it also sees the
                       # stores g++'s ThreadSanitizer pass leaves out (a store that is the left-hand side of a call statement)
                       dict(harness="c06_omp_tsan", variant="thr", valgrind="helgrind", runs=320, tl=90, watchdog=3000),
+                      # ... and the whole workflow (Green's functions, susceptibilities, vertex, ...) on real threads: races in
+                      # parallel regions other than the two-particle frequency loop
+                      dict(harness="c17_workflow", variant="tsan", runs=1000, tl=60),
                       # the other documented build flavour: complex matrix elements (hoppings carry a phase in this build)
                       dict(harness="c06_parallel", variant="plain", complex=True, runs=4000, tl=60)],
             "thorough": [dict(harness="c06_parallel", variant="plain", runs=400000, tl=1500, cfg="big=1"),
                          dict(harness="c06_parallel", variant="san", runs=40000, tl=500),
                          dict(harness="c06_parallel", variant="plain", complex=True, runs=40000, tl=400, cfg="big=1"),
                          dict(harness="c06_omp_tsan", variant="tsan", runs=30000, tl=600),
-                         dict(harness="c06_omp_tsan", variant="thr", valgrind="helgrind", runs=12000, tl=600, watchdog=3000)],
+                         dict(harness="c06_omp_tsan", variant="thr", valgrind="helgrind", runs=12000, tl=600, watchdog=3000),
+                         dict(harness="c17_workflow", variant="tsan", runs=40000, tl=400),
+                         dict(harness="c17_workflow", variant="thr", valgrind="helgrind", runs=6000, tl=400, watchdog=3000)],
         },
         "is_violation": any_nonok,
-        "workload_keys": ["G", "calls", "hrep", "quads", "freqs", "P", "model", "wf", "nosym", "beta", "mp"],
+        "workload_keys": ["G", "calls", "hrep", "quads", "freqs", "ops", "P", "model", "wf", "nosym", "beta", "mp"],
         "rule": "one case = one seeded execution of the whole ED workflow SPMD on P simulated ranks with T simulated OpenMP threads, compared with the 1-rank/1-thread reference; "
                 "distinct = distinct interleaving signature (order of all events except unsuccessful polls and stalls); non-trivial = at least 2 ranks or at least 2 OpenMP threads",
     },
@@ -105,7 +110,15 @@ CHECKS = {
             "quick": [dict(harness="c17_workflow", variant="san", runs=4000, tl=60),
                       dict(harness="c06_parallel", variant="san", runs=2000, tl=60),
                       dict(harness="c13_container", variant="san", runs=3000, tl=60),
-                      dict(harness="c16_dispatch", variant="san", runs=40000, tl=40)],
+                      dict(harness="c16_dispatch", variant="san", runs=40000, tl=40),
+                      # a data race is undefined behaviour too: the whole workflow on one inline rank with OpenMP teams of 2..8
+                      # REAL threads, under ThreadSanitizer and (uninstrumented build) under helgrind
+                      dict(harness="c17_workflow", variant="tsan", runs=1500, tl=60),
+                      dict(harness="c17_workflow", variant="thr", valgrind="helgrind", runs=320, tl=90, watchdog=3000),
+                      # clang's ASan/UBSan: g++'s AddressSanitizer pass does not instrument accesses to the parts of a complex
+                      # lvalue (`table[i] += z`), clang's does; compiled without OpenMP (regions run serially)
+                      dict(harness="c17_workflow", variant="sancl", runs=3000, tl=60),
+                      dict(harness="c06_parallel", variant="sancl", runs=1000, tl=40)],
             "thorough": [dict(harness="c17_workflow", variant="san", runs=200000, tl=1200, cfg="big=1"),
                          dict(harness="c06_parallel", variant="san", runs=100000, tl=700),
                          dict(harness="c13_container", variant="san", runs=100000, tl=600),
@@ -113,7 +126,12 @@ CHECKS = {
                          dict(harness="c17_workflow", variant="san", complex=True, runs=40000, tl=400),
                          # uninitialised reads (invisible to ASan/UBSan): a subsample under valgrind memcheck, uninstrumented -O1 build
                          dict(harness="c17_workflow", variant="vg", valgrind=True, runs=3000, tl=600, watchdog=3000),
-                         dict(harness="c06_parallel", variant="vg", valgrind=True, runs=1500, tl=600, watchdog=3000)],
+                         dict(harness="c06_parallel", variant="vg", valgrind=True, runs=1500, tl=600, watchdog=3000),
+                         dict(harness="c17_workflow", variant="tsan", runs=60000, tl=600),
+                         dict(harness="c17_workflow", variant="thr", valgrind="helgrind", runs=12000, tl=600, watchdog=3000),
+                         dict(harness="c17_workflow", variant="sancl", runs=100000, tl=600, cfg="big=1"),
+                         dict(harness="c06_parallel", variant="sancl", runs=40000, tl=400),
+                         dict(harness="c13_container", variant="sancl", runs=40000, tl=300)],
         },
         "is_violation": c17_violation,
         "workload_keys": ["ops", "calls", "hrep", "quads", "freqs", "J", "G", "P", "model", "wf", "nosym", "beta", "mode", "mp"],
